@@ -797,7 +797,7 @@ func c17RunStep(t *rapid.T, st *vkit.Stats) {
 	add("exit", m.ruleExit)
 	add("stopdo", m.ruleStopDo)
 	add("race", m.ruleRace)
-	t.Repeat(actions)
+	t.Repeat(vkit.NoStarve(actions, nil))
 
 	// ---- teardown: everybody lets go, the instance is let out, nothing may remain
 	m.tr("teardown")
